@@ -10,6 +10,13 @@ def run(path):
     pid = d.get('property')
     print('replay of %s: clause=%s' % (pid, d.get('clause')))
     prop = importlib.import_module('props.' + pid)
+    if d.get('kind') == 'conformance':
+        from harness import conformance
+        ok, detail = conformance.replay(d)
+        print('input:', json.dumps(d['input'], default=str)[:500])
+        print('detail:', detail)
+        print('REPRODUCED' if not ok else 'NOT-REPRODUCED')
+        return 1 if not ok else 0
     if 'input' in d and hasattr(prop, 'replay_input'):
         ok, detail = prop.replay_input(d)
         print('input:', json.dumps(d['input'], default=str)[:500])
